@@ -155,8 +155,11 @@ DIRECTED = {
     # functions that lose a parameter when parsed while a higher-numbered one survives ((a0*(x-x)) - a1 is stored as -a1): the only
     # rows whose chain holds a parameter renaming that is not behind a nan; first at complexity 7
     "verif_minus_times": [["x", "a"], [], ["-", "*"]],
+    # odd powers under log/Abs: the inverse map a0 -> a0**(1/3) is the principal complex root for negative a0, wrong maps that sympy's
+    # equals() cannot decide (returns None) are un-merged by check_results
+    "verif_cuberoot": [["x", "a"], ["cube", "log_abs", "exp"], ["+", "*", "/"]],
 }
-DIRECTED_NMAX = {"verif_minus_times": 7}
+DIRECTED_NMAX = {"verif_minus_times": 7, "verif_cuberoot": 4}
 DUPUNIQ = ("verif_dupuniq", [["x", "a"], ["log_abs", "inv"], ["+", "-", "*"]], [6])
 
 
